@@ -225,13 +225,44 @@ def edge_conditions(ev, b):
     return out
 
 
-def path_literals(ev, b, prog=None):
+_PANIC_NAMES = ("assert_failed", "panic", "panic_fmt", "panic_display", "panic_explicit", "unreachable_display", "begin_panic", "panic_nounwind", "assert_failed_inner", "panic_const")
+
+
+def is_assertion_switch(fn, src):
+    """Is `src` the test of an assertion: a switch one of whose successors only leads to a call that never returns
+    (`assert!`, `debug_assert!`, `unreachable!`, overflow panics lowered to calls)?  The surviving edge of such a test is
+    a fact for the code after it, but it is not a *check the function performs*: debug assertions vanish in release."""
+    t = fn.blocks[src]["term"]
+    if t["k"] != "switch":
+        return False
+    succs = [tg for _, tg in t["arms"]] + [t["otherwise"]]
+    for sb in succs:
+        cur = sb
+        for _ in range(4):
+            tt = fn.blocks[cur]["term"]
+            if tt["k"] == "goto":
+                cur = tt["target"]
+                continue
+            if tt["k"] == "call" and tt.get("target") is None:
+                c = tt.get("callee") or {}
+                if (c.get("name") in _PANIC_NAMES) or "panicking" in (c.get("path") or ""):
+                    return True
+            if tt["k"] == "unreachable":
+                return False
+            break
+    return False
+
+
+def path_literals(ev, b, prog=None, checks_only=False):
     """Literals (atom, polarity) implied by the switch edges dominating block b.
     Bool switches contribute formula literals; integer/discriminant switches contribute
-    ("atom","switch", discr_term, value) literals."""
+    ("atom","switch", discr_term, value) literals.  With checks_only the surviving edges of assertions are left out
+    (an assertion is not a guard: `debug_assert!` does not exist in release builds)."""
     lits = set()
     for src, val, d, tj in edge_conditions(ev, b):
         if d is None:
+            continue
+        if checks_only and is_assertion_switch(ev.fn, src):
             continue
         if tj.get("ty") == "bool":
             f = formula(d, prog)
